@@ -35,3 +35,72 @@ int fx17_tow_chk(int *dest, size_t dmax, const unsigned src) {
     dest[0] = src; dest[1] = 0;
     return 1;
 }
+/* layout agreement: a two-level code-point table whose lists exist in a 16-bit and a 32-bit layout */
+typedef struct { uint16_t k, v; } fx_s;
+typedef struct { uint32_t k, v; } fx_l;
+static const fx_s l_0041[] = {{0x300, 0xc0}, {0x301, 0xc1}, {0, 0}};
+static const fx_s l_0142[] = {{0x301, 0x1}, {0, 0}};
+static const fx_l l_0250[] = {{0x10300, 0x10400}, {0, 0}};
+static const fx_l l_0251[] = {{0x10301, 0x10401}, {0, 0}};
+static const fx_s *row0[256] = {[0x41] = l_0041};
+static const fx_s *row1[256] = {[0x42] = l_0142};
+static const fx_s *row2[256] = {[0x50] = (const fx_s *)l_0250, [0x51] = (const fx_s *)l_0251};
+static const fx_s **fx_tab[4] = {row0, row1, row2, 0};
+#define FX_FIRST_LONG 0x250
+#define FX_LOOKUP(SELECT, KEY16)                                              \
+    const fx_s **row, *cell;                                                  \
+    if (cp > 0x3ff) return 0;                                                 \
+    row = fx_tab[cp >> 8];                                                    \
+    if (!row) return 0;                                                       \
+    cell = row[cp & 0xff];                                                    \
+    if (!cell) return 0;                                                      \
+    if (SELECT) {                                                             \
+        const fx_s *i;                                                        \
+        for (i = cell; i->k; i++) {                                           \
+            if (KEY16 == i->k) return i->v;                                   \
+            else if (KEY16 < i->k) break;                                     \
+        }                                                                     \
+    } else {                                                                  \
+        const fx_l *i;                                                        \
+        for (i = (const fx_l *)cell; i->k; i++) {                             \
+            if (cp2 == i->k) return i->v;                                     \
+            else if (cp2 < i->k) break;                                       \
+        }                                                                     \
+    }                                                                         \
+    return 0;
+uint32_t fx17_lay_good(uint32_t cp, uint32_t cp2) { FX_LOOKUP(cp < FX_FIRST_LONG, cp2) }
+uint32_t fx17_lay_trunc_ok(uint32_t cp, uint32_t cp2) { if (cp2 > 0xffff) return 0; { FX_LOOKUP(cp < FX_FIRST_LONG, (uint16_t)cp2) } }
+uint32_t fx17_lay_boundary(uint32_t cp, uint32_t cp2) { FX_LOOKUP(cp <= FX_FIRST_LONG, cp2) }
+uint32_t fx17_lay_trunc(uint32_t cp, uint32_t cp2) { FX_LOOKUP(cp < FX_FIRST_LONG, (uint16_t)cp2) }
+uint32_t fx17_lay_dropped(uint32_t cp, uint32_t cp2) { if (cp >= 0x251) return 0; { FX_LOOKUP(cp < FX_FIRST_LONG, cp2) } }
+/* decomposition agreement: packed (length, index) values in a two-level table, value tables with rows of 1 and 2 elements */
+#include <string.h>
+static const uint32_t dv1[3][1] = {{0x3b}, {0x4b}, {0xb4}};
+static const uint32_t dv2[2][2] = {{0x41, 0x300}, {0x41, 0x301}};
+static const uint32_t *const dvt[2] = {(const uint32_t *)dv1, (const uint32_t *)dv2};
+#define DA(l) ((l) << 12)
+static const uint16_t drowA[256] = {[0x7d] = DA(1) | 0, [0x7e] = DA(1) | 1, [0x7f] = DA(1) | 2, [0xc0] = DA(2) | 0, [0xc1] = DA(2) | 1};
+static const uint16_t *const dplaneA[2] = {drowA, 0};
+#define DB(l) (((l)-1) << 12) /* the packed value of (length 1, index 0) is 0: "no decomposition" */
+static const uint16_t drowB[256] = {[0x7d] = DB(1) | 0, [0x7e] = DB(1) | 1, [0x7f] = DB(1) | 2, [0xc0] = DB(2) | 0, [0xc1] = DB(2) | 1};
+static const uint16_t *const dplaneB[2] = {drowB, 0};
+#define FX_DECOMP(PLANE, LEN, IDXMUL)                                         \
+    const uint16_t *row;                                                      \
+    uint16_t vi;                                                              \
+    if (dmax < 5 || cp > 0x1ff) return -1;                                    \
+    row = PLANE[cp >> 8];                                                     \
+    if (!row) return 0;                                                       \
+    vi = row[cp & 0xff];                                                      \
+    if (!vi) return 0;                                                        \
+    {                                                                         \
+        const int l = LEN;                                                    \
+        const int i = vi & 0xfff;                                             \
+        const uint32_t *tbl = dvt[l - 1];                                     \
+        memcpy(dest, &tbl[i * IDXMUL], l * sizeof(uint32_t));                 \
+        dest[l] = 0;                                                          \
+        return l;                                                             \
+    }
+int fx17_dec_good(uint32_t *dest, size_t dmax, uint32_t cp) { FX_DECOMP(dplaneA, (vi >> 12), l) }
+int fx17_dec_shift(uint32_t *dest, size_t dmax, uint32_t cp) { FX_DECOMP(dplaneA, (vi >> 11), l) }
+int fx17_dec_stride(uint32_t *dest, size_t dmax, uint32_t cp) { FX_DECOMP(dplaneA, (vi >> 12), 2) }
+int fx17_dec_zero(uint32_t *dest, size_t dmax, uint32_t cp) { FX_DECOMP(dplaneB, ((vi >> 12) + 1), l) }
